@@ -54,6 +54,10 @@ def _cmp(rep, rule, fi: FuncInfo, got: Value, want: Value, what: str, stmt: str 
 
 def run(prog: Program, rep, tier: str) -> None:
     rep.explanation = EXPLANATION
+    from . import c11 as _c11
+    _c11.iterate_defensive_copy(prog, rep)    # an iterate's point is its own: nothing outside can move it after construction
+    from . import c19 as _c19
+    _c19.evaluator_memoryless(prog, rep)    # the evaluator answers every request with the value at the requested point
     it = prog.cls(IT)
     n = 0
     # ---------------- rule 1: Iterate formulas -----------------------------------
@@ -151,6 +155,24 @@ def run(prog: Program, rep, tier: str) -> None:
                {"at_lower": "minimum", "at_upper": "maximum"}, "infeasibility-projection-signs", init_zero=False)
     active_set_masks(prog, rep)
     evaluations_not_corrupted(prog, rep)
+    formula_classes_pure(prog, rep)
+    implicit_funcs(prog, rep)
+    projection_shape(prog, rep)
+    rep.pin("closed-form formulas compared", n + rep.extra.get("implicit_formulas", 0), 17)
+
+
+def formula_classes_pure(prog: Program, rep, with_iterate: bool = False) -> None:
+    """the classes whose methods are formulas keep no state that depends on the arguments of an earlier call"""
+    if with_iterate:
+        it = prog.cls(IT)
+        for name in ITERATE_FORMULAS:
+            m = it.methods.get(name)
+            if m is None:
+                raise AnalysisError(f"Iterate.{name} has vanished")
+            stores = [s_ for s_ in own_nodes(m.node) if isinstance(s_, ast.Attribute) and isinstance(s_.ctx, ast.Store) and is_self_attr(s_)]
+            rep.check(not stores, "formula-pure", m.qualname, U(stores[0]) if stores else name,
+                      f"Iterate.{name} keeps no memoised instance state (a cache not keyed on its arguments would return stale values)",
+                      m.loc(stores[0]) if stores else m.loc())
     from . import c10
     for q in ("pygradflow.eval.Evaluator", "pygradflow.eval.SimpleEvaluator", "pygradflow.eval.ValidatingEvaluator"):
         ci = prog.cls(q)
@@ -166,9 +188,6 @@ def run(prog: Program, rep, tier: str) -> None:
                   f"{ci.name} is immutable after construction: value_at / deriv_at / compute_active_set are functions of their arguments and the constructor's "
                   f"(problem, iterate, dt) only (a memo keyed on fewer arguments than the method takes would return a stale active set or value)",
                   bad[0][0].loc(bad[0][1]) if bad else "")
-    implicit_funcs(prog, rep)
-    projection_shape(prog, rep)
-    rep.pin("closed-form formulas compared", n + rep.extra.get("implicit_formulas", 0), 17)
 
 
 def is_feasible_rule(prog: Program, rep, rule: str) -> None:
